@@ -312,6 +312,27 @@ theorem signer_right_key (ops : List (Op × Option Nat)) (sel : Sel) (loc : Opti
   obtain ⟨k, c, hr, rfl, ht⟩ := getSigner_step (sysInv_run ops) h
   exact ⟨k, c, selected_of_resolve hr, rfl, rfl, ht⟩
 
+/-- **views_scoped.** After any history (with any injected storage failures) every key row hangs below an
+    existing identity row and is named after that identity, and every certificate row hangs below an existing
+    key row: the view of an identity lists only keys named after it, and there are no orphan rows that a later
+    identity or key with a re-used row id could adopt.  (Foreign keys are off; this is the hand-written cascade
+    order - children first - doing its job, also when it is interrupted.) -/
+theorem views_scoped (ops : List (Op × Option Nat)) :
+    let d := (run Sys.init ops).cur
+    (∀ i ∈ d.ids.rows, ∀ k ∈ keyIter d i.rid, k.idn = i.name) ∧
+    (∀ k ∈ d.keys.rows, ∃ i ∈ d.ids.rows, i.rid = k.owner) ∧
+    (∀ c ∈ d.certs.rows, ∃ k ∈ d.keys.rows, k.rid = c.owner) := by
+  intro d
+  have h := sysInv_run ops
+  refine ⟨fun i hi k hk => ?_, fun k hk => ?_, h.link.1.certKey⟩
+  · simp only [keyIter, List.mem_map, List.mem_filter, beq_iff_eq] at hk
+    obtain ⟨kr, ⟨hkr, ho⟩, rfl⟩ := hk
+    obtain ⟨i', hi', h1, h2⟩ := h.link.1.keyHome kr hkr
+    have : i' = i := eq_of_rid_eq h.cur.ids.rids hi' hi (h1.trans ho)
+    rw [← h2, this]
+  · obtain ⟨i, hi, h1, _⟩ := h.link.1.keyHome k hk
+    exact ⟨i, hi, h1⟩
+
 /-! ## delete_cascades -/
 
 theorem delKey_step {s s' : Sys} {k : KeyName} {f : Option Nat} {r : Option Signer}
